@@ -26,6 +26,7 @@ PREFIX = os.path.join(REPO, "websocket") + os.sep
 _installed = False
 uses = {}  # shim name -> number of simulated uses
 urandom_log = []  # (n, value, caller_file_basename, caller_function)
+urandom_force = []  # values the next draws made by repository code return (consumed one per draw of the same size)
 wrap_log = []  # real-TLS wrap spy: dicts
 NETWORK = None  # the SimNetwork used by socket()/getaddrinfo() routing
 
@@ -61,6 +62,7 @@ def set_network(n):
 def reset_counters():
     uses.clear()
     del urandom_log[:]
+    del urandom_force[:]
     del wrap_log[:]
 
 
@@ -263,6 +265,11 @@ def install():
         try:
             f = sys._getframe(1)
             if f.f_code.co_filename.startswith(PREFIX):
+                if urandom_force:
+                    # a workload asked for a particular (legal, merely improbable) outcome of the next draw, e.g. four zero bytes
+                    fv = urandom_force.pop(0)
+                    if len(fv) == n:
+                        v = fv
                 urandom_log.append((n, v, os.path.basename(f.f_code.co_filename), f.f_code.co_name))
         except ValueError:
             pass
